@@ -366,11 +366,11 @@ impl V2 {
 
 // ------------------------------------------------------------------------------------------------
 
-/// A view whose equal sub-documents are stored once and shared (`Rc`): the same container is reached from
+/// A view whose equal sub-documents are stored once and shared (`Arc`, so that the type stays `Send + Sync` like `serde_json::Value` - a library that grows such a bound on the trait must still be checkable): the same container is reached from
 /// several parents, so its children have one address however they are reached.  Faithful as far as the
 /// trait goes - every accessor answers as for the plain tree.
 #[derive(Clone, Debug, PartialEq)]
-pub struct V4(pub std::rc::Rc<N4>);
+pub struct V4(pub std::sync::Arc<N4>);
 
 #[derive(Clone, Debug, PartialEq)]
 pub enum N4 {
@@ -386,37 +386,37 @@ pub enum N4 {
 
 impl Default for V4 {
     fn default() -> Self {
-        V4(std::rc::Rc::new(N4::Str("<default>".to_string())))
+        V4(std::sync::Arc::new(N4::Str("<default>".to_string())))
     }
 }
 impl From<&str> for V4 {
     fn from(s: &str) -> Self {
-        V4(std::rc::Rc::new(N4::Str(s.to_string())))
+        V4(std::sync::Arc::new(N4::Str(s.to_string())))
     }
 }
 impl From<String> for V4 {
     fn from(s: String) -> Self {
-        V4(std::rc::Rc::new(N4::Str(s)))
+        V4(std::sync::Arc::new(N4::Str(s)))
     }
 }
 impl From<bool> for V4 {
     fn from(b: bool) -> Self {
-        V4(std::rc::Rc::new(N4::Bool(b)))
+        V4(std::sync::Arc::new(N4::Bool(b)))
     }
 }
 impl From<i64> for V4 {
     fn from(i: i64) -> Self {
-        V4(std::rc::Rc::new(N4::Int(i)))
+        V4(std::sync::Arc::new(N4::Int(i)))
     }
 }
 impl From<f64> for V4 {
     fn from(f: f64) -> Self {
-        V4(std::rc::Rc::new(N4::Float(f)))
+        V4(std::sync::Arc::new(N4::Float(f)))
     }
 }
 impl From<Vec<V4>> for V4 {
     fn from(v: Vec<V4>) -> Self {
-        V4(std::rc::Rc::new(N4::Arr(v)))
+        V4(std::sync::Arc::new(N4::Arr(v)))
     }
 }
 
@@ -467,7 +467,7 @@ impl Queryable for V4 {
         }
     }
     fn null() -> Self {
-        V4(std::rc::Rc::new(N4::Null))
+        V4(std::sync::Arc::new(N4::Null))
     }
 }
 impl JsonPath for V4 {}
@@ -490,7 +490,7 @@ impl V4 {
                 J::Arr(a) => N4::Arr(a.iter().map(|x| go(x, pool)).collect()),
                 J::Obj(m) => N4::Obj(m.iter().map(|(k, v)| (k.clone(), go(v, pool))).collect()),
             };
-            let v = V4(std::rc::Rc::new(n));
+            let v = V4(std::sync::Arc::new(n));
             pool.insert(key, v.clone());
             v
         }
@@ -512,7 +512,7 @@ impl V4 {
     pub fn shared_containers(&self) -> usize {
         fn go(v: &V4, seen: &mut HashMap<usize, usize>) {
             if matches!(&*v.0, N4::Arr(_) | N4::Obj(_)) {
-                *seen.entry(std::rc::Rc::as_ptr(&v.0) as usize).or_insert(0) += 1;
+                *seen.entry(std::sync::Arc::as_ptr(&v.0) as usize).or_insert(0) += 1;
             }
             match &*v.0 {
                 N4::Arr(a) => a.iter().for_each(|x| go(x, seen)),
